@@ -1002,10 +1002,13 @@ def run(seed, tier, budget_s):
             'undecodable requests).  Histories are pair-biased: a catalogue '
             'of state carriers supplies (polluter, probe) operations placed '
             'at distance 0-2 with equal or different options, among random '
-            'documents and keystroke-state prefixes.  Every operation is '
+            'documents and keystroke-state prefixes; one sixth of the '
+            'histories instead pairs two documents that use the same macro or '
+            'environment name, drawn from the 437 LaTeX inputs of the '
+            'repository\'s own tests (carrier label corpus:<name>).  Every operation is '
             're-executed alone in a pristine process and compared exactly '
             '(text, position list, part labels/order, stderr, status; HTTP '
-            'response bytes, submissions, stderr slice).  Non-trivial = the '
+            'response bytes, submissions, diagnostics on stderr without the request log).  Non-trivial = the '
             'history contains a polluter before its probe (or >= 2 requests); '
             'distinct = distinct event-log digests of such histories.')
     assumptions = [
